@@ -12,6 +12,7 @@ use refmodel::codec::RefMsg;
 use std::time::Duration;
 
 const BUDGET: usize = 48; // 16-byte blocks on every script for token lengths 0..=8
+const BUDGET_EARLY: usize = 70; // room for 32-byte blocks: only the client's Block2 0/0/16 keeps them at 16
 
 #[derive(Clone, Debug, PartialEq, Eq, Hash)]
 pub struct Key {
@@ -22,6 +23,9 @@ pub struct Key {
 
 #[derive(Clone, Copy, Debug, PartialEq)]
 pub enum Kind {
+    /// 5 exchanges: GET carrying Block2 0/0/16 (early negotiation of a size *smaller* than the server would pick
+    /// at the larger budget these groups use), then Block2 1..4
+    DownloadEarly,
     Upload,   // 4 exchanges: Block1 0,1,2 (more) + 3 (final)
     Download, // 5 exchanges: request + Block2 1..4
     Mixed,    // 5 exchanges: Block1 0 (more), 1 (final, response fragmented), Block2 1, 2, 3
@@ -47,7 +51,7 @@ fn upload_body(t: &Transfer) -> Vec<u8> {
     body(if t.kind == Kind::Upload { 56 } else { 24 }, t.salt)
 }
 fn download_body(t: &Transfer) -> Vec<u8> {
-    body(if t.kind == Kind::Download { 72 } else { 60 }, t.salt.wrapping_add(0x80))
+    body(if t.kind == Kind::Mixed { 60 } else { 72 }, t.salt.wrapping_add(0x80))
 }
 
 /// Fresh token per request, of varying length (0..=8 bytes), so that anything of the cache-populating
@@ -69,6 +73,7 @@ fn request_of(t: &Transfer, k: usize, mid: u16) -> Vec<u8> {
             request_bytes(0, t.key.method, mid, &token, &path, &[], Some((k as u32, more, 0)), None, &b[k * 16..(k * 16 + 16).min(b.len())])
         }
         Kind::Download => request_bytes(0, t.key.method, mid, &token, &path, &[], None, if k == 0 { None } else { Some((k as u32, false, 0)) }, &[]),
+        Kind::DownloadEarly => request_bytes(0, t.key.method, mid, &token, &path, &[], None, Some((k as u32, false, 0)), &[]),
         Kind::Mixed => {
             let b = upload_body(t);
             if k < 2 {
@@ -93,10 +98,19 @@ fn run_order(ts: &[Transfer], order: &[usize], rep: Option<&mut Report>) -> Resu
     run_events(ts, order, rep, false)
 }
 
+/// Groups with an early-negotiating download run at a budget where the server alone would pick 32-byte blocks.
+fn budget_for(ts: &[Transfer]) -> usize {
+    if ts.iter().any(|t| t.kind == Kind::DownloadEarly) {
+        BUDGET_EARLY
+    } else {
+        BUDGET
+    }
+}
+
 /// `overlapped`: a request that reaches the application stays pending (its response phase is a separate event), so
 /// other transfers' requests can be begun in between - a server that processes requests concurrently.
 fn run_events(ts: &[Transfer], order: &[usize], rep: Option<&mut Report>, overlapped: bool) -> Result<Vec<Vec<Entry>>, (String, String)> {
-    let mut srv = Server::new(BUDGET, Duration::from_secs(3600));
+    let mut srv = Server::new(budget_for(ts), Duration::from_secs(3600));
     clock::reset();
     let table: Vec<(Key, Transfer)> = ts.iter().map(|t| (t.key.clone(), t.clone())).collect();
     let app = move |call: &AppCall| -> AppReply {
@@ -258,8 +272,13 @@ pub fn run(ctx: &Ctx, rep: &mut Report) {
             ogroups.push((format!("overlapped-pair-{:?}-{:?}", a, b), vec![a, b], true));
         }
     }
+    for (a, b) in [(Kind::DownloadEarly, Kind::DownloadEarly), (Kind::DownloadEarly, Kind::Upload), (Kind::Upload, Kind::DownloadEarly)] {
+        ogroups.push((format!("pair-{:?}-{:?}", a, b), vec![a, b], false));
+        ogroups.push((format!("overlapped-pair-{:?}-{:?}", a, b), vec![a, b], true));
+    }
     if ctx.thorough() {
         ogroups.push(("overlapped-triple-Upload-Download-Mixed".into(), vec![Kind::Upload, Kind::Download, Kind::Mixed], true));
+        ogroups.push(("overlapped-triple-DownloadEarly-DownloadEarly-Upload".into(), vec![Kind::DownloadEarly, Kind::DownloadEarly, Kind::Upload], true));
     }
     for (gname, kinds, overlapped) in &ogroups {
         let overlapped = *overlapped;
